@@ -19,6 +19,7 @@ import JanetModel.Asm.InstrLemmas
 import JanetModel.Asm.DefLemmas
 import JanetModel.Marsh.CodeData
 import JanetModel.Marsh.PresentLemmas
+import JanetModel.Marsh.PresentFixed
 
 namespace JanetModel.Props.C09
 open JanetModel.Marsh JanetModel.Gen.Marsh
@@ -524,6 +525,23 @@ theorem presentation_unique (H1 H2 : List Obj) (x1 x2 : Val) (bs : List Nat) (hw
   rw [r1] at r2
   simp only [Option.some.injEq, Prod.mk.injEq] at r2
   exact ⟨r2.1, r2.2.1⟩
+
+/-- **Canonicity** (uniqueness without mentioning bytes): a description that `marshalOne` accepts, at any counter and depth
+budget, is its own presentation — the seen-table marshaller run on it with addresses = reference numbers writes the same
+bytes and returns it unchanged; so `present` is a projection onto the accepted descriptions, and the presentation of a
+presentation is itself. -/
+theorem presentation_canonical (H : List Obj) (fuel : Nat) (s : Seen) (n : Nat) (x : Val) (bs : List Nat) (n' : Nat)
+    (h : marshalOne fuel H n x = some (bs, n')) (hn : n ≤ H.length) (hs : SeenId s n) :
+    ∃ s', presentOne fuel H s n x = some (bs, x, slice H n n', s') ∧ SeenId s' n' :=
+  let ⟨s', p, q, _, _⟩ := presentOne_fixed H fuel s n x bs n' h hn hs
+  ⟨s', p, q⟩
+
+theorem presentation_idempotent (G : List Obj) (x : Val) (bs : List Nat) (x' : Val) (H : List Obj)
+    (h : present G x = some (bs, x', H)) : present H x' = some (bs, x', H) :=
+  present_fixed H x' bs (present_sound G x bs x' H h)
+
+example : present exHeap (.ref 0) = some ([209, 4, 1, 218, 0, 210, 2, 1, 129, 44, 218, 0, 218, 1], .ref 0, exHeap) := by
+  decide +kernel
 
 /-- the presentation of a graph round-trips: `unmarshal (marshal g)` is the presentation of `g` -/
 theorem presentation_roundtrip (G : List Obj) (x : Val) (bs : List Nat) (x' : Val) (H : List Obj)
